@@ -619,6 +619,13 @@ def run(ck):
     if items:
         judge_items(ck, items)
     parallel_interrupt_slice(ck, 6 if quick else 80)
+    _tj = time.time()
+    try:  # Ctrl-C inside the parallel scheduler's join (harness/corr/interrupt_join.py)
+        from corr import interrupt_join
+        interrupt_join.scenarios(ck)
+    except ImportError:
+        pass
+    ck.notes.append('interrupt-join scenarios %.1fs' % (time.time() - _tj))
     _t = time.time()
     torn_tail_chains(ck, 3 if quick else 40)
     ck.notes.append('torn-tail slice %.1fs' % (time.time() - _t))
@@ -630,6 +637,9 @@ def run(ck):
 
 def replay(ck, data):
     inp = data['input']
+    if inp.get('kind') == 'interrupt-join':
+        from corr import interrupt_join
+        return interrupt_join.replay(ck, data)
     if inp.get('parallel_interrupt'):
         ck.notes.append('parallel-interrupt replays re-run the slice from the seed')
         parallel_interrupt_slice(ck, 6)
